@@ -1,0 +1,36 @@
+//go:build verif
+// +build verif
+
+package stick
+
+import (
+	"io"
+
+	"github.com/tyler-sommer/stick/parse"
+)
+
+// Hooks for the verification harness (build tag "verif"). They only add
+// observability and are never set by the library itself.
+var (
+	// VerifExecStep is called at the top of every statement walk and every
+	// expression evaluation with the node about to be executed.
+	VerifExecStep func(parse.Node)
+	// VerifExecEnd is called when a top-level execute() finishes. It receives
+	// the depth of the scope stack, whether the state's writer is still the
+	// writer passed by the caller, whether no block is marked current, whether
+	// the state's template name is the name execution started with, and the
+	// error about to be returned.
+	VerifExecEnd func(scopeDepth int, outRestored, noCurrentBlock, nameRestored bool, err error)
+)
+
+func verifExecStep(n parse.Node) {
+	if VerifExecStep != nil {
+		VerifExecStep(n)
+	}
+}
+
+func verifExecEnd(s *state, name string, out io.Writer, err error) {
+	if VerifExecEnd != nil {
+		VerifExecEnd(len(s.scope.scopes), s.out == out, s.current == nil, s.name == name, err)
+	}
+}
